@@ -118,6 +118,14 @@ func (vc *VC) run() {
 		vc.vals[fv] = v
 		vc.params[fv.Name()] = v
 	}
+	if fn.Synthetic == "package initializer" && fn.Pkg != nil {
+		// the runtime runs a package initializer exactly once: its guard is false at entry
+		comp := "glob:" + fn.Pkg.Pkg.Name() + ".init$guard"
+		vc.compSort[comp] = "Bool"
+		vc.compMeta[comp] = compMetaT{kind: LGlobal}
+		st.heap[comp] = "false"
+		vc.assumptions["package initializer runs exactly once (init$guard is false at entry)"] = true
+	}
 	vc.entry = st.clone()
 	vc.entry.heap = map[string]Term{} // entry heap: bases are materialised lazily (same names)
 	if c != nil {
@@ -562,6 +570,15 @@ func (vc *VC) localByNameAt(name string, at *ssa.BasicBlock, before int, st *Sta
 					continue
 				}
 			}
+			// a variable that lives in memory (address-taken: IsAddr) is always read through its
+			// address in the current state; value DebugRefs of it are snapshots of earlier loads
+			if best != nil && bestAddr && !dr.IsAddr {
+				continue
+			}
+			if dr.IsAddr && best != nil && !bestAddr {
+				best, bestAddr, bestBlock, bestIdx = dr.X, true, b, i
+				continue
+			}
 			// prefer the latest dominating definition
 			if best == nil || bestBlock.Dominates(b) && (bestBlock != b || i > bestIdx) {
 				best, bestAddr, bestBlock, bestIdx = dr.X, dr.IsAddr, b, i
@@ -813,6 +830,9 @@ func (vc *VC) processBlock(b *ssa.BasicBlock, st *State, region map[*ssa.BasicBl
 
 func (vc *VC) branch(b *ssa.BasicBlock, succIdx int, st *State, cond Term, region map[*ssa.BasicBlock]bool, start *ssa.BasicBlock, edgeStates map[edge]*State) {
 	s := b.Succs[succIdx]
+	if cond == "false" {
+		return // statically infeasible edge
+	}
 	ns := st.clone()
 	vc.assume(ns, cond)
 	e := edge{b.Index, s.Index}
@@ -1310,17 +1330,14 @@ func (vc *VC) implementsTerm(tag Term, iface types.Type) Term {
 	if !vc.declared[name] {
 		vc.declareFun(name, []string{"Int"}, "Bool")
 		vc.G.preassignTags()
-		// enumerate the known concrete types
-		for _, t := range vc.G.tagTypes {
-			tg := vc.typeTag(t)
-			if types.Implements(t, it) {
-				vc.axiom(app(name, tg))
-			} else {
-				vc.axiom(not(app(name, tg)))
-			}
-		}
 		vc.axiom(not(app(name, "0")))
 	}
+	if vc.implIfaces == nil {
+		vc.implIfaces = map[string]*types.Interface{}
+	}
+	vc.implIfaces[name] = it
+	// the predicate is total over every concrete type tag known so far (extended on new tags)
+	vc.extendImplAxioms()
 	return app(name, tag)
 }
 
@@ -1391,13 +1408,20 @@ func (vc *VC) doReturn(st *State, x *ssa.Return) {
 	env := vc.resultEnv(st, rets)
 	vc.cover(st, fmt.Sprintf("return%d", retOrd), "true")
 	for i, en := range c.Ensures {
-		t, err := env.EvalBool(en.E)
-		if err != nil {
-			sfail("ensures %q: %v", en.Src, err)
-		}
 		tag := en.Tag
 		if tag == "" {
 			tag = fmt.Sprint(i)
+		}
+		if labels, terms, ok := vc.splitKeysQuantifier(env, en.E); ok {
+			// table postcondition: one ground obligation per entry
+			for k := range labels {
+				vc.oblige(st, "table", fmt.Sprintf("%s[%s]@r%d", tag, labels[k], retOrd), terms[k], en.Src)
+			}
+			continue
+		}
+		t, err := env.EvalBool(en.E)
+		if err != nil {
+			sfail("ensures %q: %v", en.Src, err)
 		}
 		vc.oblige(st, "post", fmt.Sprintf("%s@r%d", tag, retOrd), t, en.Src)
 	}
